@@ -54,17 +54,23 @@ def object_symbols(header):
 
 
 class Driver:
-    def __init__(self, workdir, header, source, variant="asan", extra_flags=()):
+    def __init__(self, workdir, header, source, variant="asan", extra_flags=(), alias_pointers=None):
+        """alias_pointers: [(kind, name)] of `ufcx_form* name` / `ufcx_expression* name` variables through which the
+        objects are reached (command-line compiler output) instead of the factory symbols."""
         self.workdir = workdir
         self.variant = variant
         os.makedirs(workdir, exist_ok=True)
-        self.symbols = object_symbols(header)
+        self.symbols = alias_pointers if alias_pointers is not None else object_symbols(header)
         with open(os.path.join(workdir, "k.h"), "w") as f:
             f.write(header)
         with open(os.path.join(workdir, "k.c"), "w") as f:
             f.write(source)
         stub = ['#include "k.h"']
-        stub.append("void* VF_OBJECTS[] = {" + ", ".join(f"(void*)&{s}" for _, s in self.symbols) + ("" if self.symbols else "0") + "};")
+        if alias_pointers is not None:
+            stub.append("void* VF_OBJECTS[%d];" % max(1, len(self.symbols)))
+            stub.append("void vf_init(void){ " + " ".join(f"VF_OBJECTS[{i}] = (void*){s};" for i, (_, s) in enumerate(self.symbols)) + " }")
+        else:
+            stub.append("void* VF_OBJECTS[] = {" + ", ".join(f"(void*)&{s}" for _, s in self.symbols) + ("" if self.symbols else "0") + "};")
         stub.append("int VF_KINDS[] = {" + ", ".join(str(k) for k, _ in self.symbols) + ("" if self.symbols else "0") + "};")
         stub.append(f"int VF_NOBJ = {len(self.symbols)};")
         with open(os.path.join(workdir, "stub.c"), "w") as f:
